@@ -506,7 +506,19 @@ impl Builder<'_> {
     }
 }
 
-pub fn c15_gen_cfg(rng: &mut Rng) -> GenCfg {
+pub fn c15_gen_cfg(rng: &mut Rng, giant_ok: bool) -> GenCfg {
+    if rng.chance(1, 50) && giant_ok {
+        // a very large module (tens of kilobytes; on one line under layout shape 1)
+        return GenCfg {
+            max_modules: 2,
+            min_decls: 6,
+            max_decls: 14,
+            max_depth: 3,
+            examples_bias: 2,
+            shadow_bias: 5,
+            res_range: (50, 100),
+        };
+    }
     GenCfg {
         max_modules: rng.range(1, 4),
         min_decls: 1,
@@ -535,7 +547,7 @@ pub fn plan(seed: u64, prop: &str, run: u64, sem: Sem) -> Plan {
         sw.max_events = 60;
         sw.unsaved_closes = sw.unsaved_closes && sched.chance(1, 3);
     }
-    let cfg = c15_gen_cfg(&mut wl);
+    let cfg = c15_gen_cfg(&mut wl, !semantic);
     let mut programs = vec![gen::generate(&mut wl, &cfg)];
     let layout = |wl: &mut Rng, sw: &Swarm| Layout {
         seed: wl.next_u64(),
@@ -790,6 +802,16 @@ pub fn plan(seed: u64, prop: &str, run: u64, sem: Sem) -> Plan {
             // only outside semantic runs: under that spelling the server (consistently) takes
             // the open buffer for another document than the module it loads from disk
             uri_plus_encoded: uri_plus,
+            config_b: if sw.second_folder {
+                match env.below(8) {
+                    0 => Some("[api]\ntarget = \"out.yaml\"\n".to_string()),
+                    1 => Some("this is = not [ toml".to_string()),
+                    2 => Some("[api]\nmain = \"nowhere.oal\"\n".to_string()),
+                    _ => None,
+                }
+            } else {
+                None
+            },
         },
         programs,
         targets,
